@@ -85,7 +85,7 @@ sim_ctx_switch:
 )");
 
 static const int MAXT = 128;
-static const size_t STACK_BYTES = 512 * 1024;
+static const size_t STACK_BYTES = 8 * 1024 * 1024; // like the default stack of a pooled OpenMP worker thread (virtual, MAP_NORESERVE)
 static const size_t GUARD_BYTES = 16 * 1024;
 
 enum MState
@@ -1021,7 +1021,7 @@ static void prepare_fiber(Member *m)
     // configuration, seeded garbage with dirty_heap (an uninitialised stack read then shows as a
     // difference to the reference run instead of depending on what the process ran before)
 #ifdef SIM_PLAIN
-    VALGRIND_MAKE_MEM_UNDEFINED(m->stack_lo, STACK_BYTES); // addressable again, contents undefined for memcheck
+    VALGRIND_MAKE_MEM_UNDEFINED(m->stack_lo + STACK_BYTES - 512 * 1024, 512 * 1024); // addressable again, contents undefined for memcheck
 #else
     memset((char *)top - 16384, g_cfg.dirty_heap ? (int)(0x80 | (g_cfg.garbage_seed & 0x7f)) : 0, 16384);
 #endif
